@@ -25,6 +25,7 @@ def run(repo, chk):
     _run(repo, chk)
     rule_g(repo, chk)
     rule_h(repo, chk)
+    rule_rejected(repo, chk)
 
 
 def _run(repo, chk):
@@ -111,7 +112,26 @@ def _run(repo, chk):
         p = Q.escapes(g, [e.dst], lambda n: n in errt, exc=()) if e.dst not in errt else None
         chk.ob('d', h.ref, 'with incomplete headers the parser\'s error channel is consulted on every path', p is None and bool(errt), loc(h, e.src.ast),
                path=pat.path_lines(p) if p else None, discr='errno-consulted')
-    for t in errt:
+    inc_guard = pat.test_edge(lambda tt, pol: pol == 'F' and src(tt).endswith('.is_headers_complete()'))
+    body_errt = [t for t in errt if pat.guarded_by(g, t, inc_guard) is not None]
+    # … and in the body phase too: a body that can never be completed (bad chunk size / terminator) must be answered, not waited for
+    waits = [n for n in g.nodes if n.kind == 'stmt' and isinstance(n.ast, ast.Return) and (n.ast.value is None or pat.is_const(n.ast.value, None))
+             and pat.guarded_by(g, n, pat.test_edge(lambda tt, pol: pol == 'T' and src(tt).endswith('.is_headers_complete()'))) is None
+             and pat.guarded_by(g, n, pat.test_edge(lambda tt, pol: pol == 'F' and src(tt).endswith('.is_message_complete()'))) is None]
+    no_err = pat.test_edge(lambda tt, pol: isinstance(tt, ast.Compare) and '.errno' in src(tt.left) and pat.fact_matches(pat.compare_fact(tt, pol), src(tt.left), ('is', '=='), 'None'))
+    for n in waits:
+        q = pat.guarded_by(g, n, no_err)
+        chk.ob('d', h.ref, 'waiting for the rest of a body happens only when the parser has reported no error (an error in the body phase is final: the parser keeps its '
+                           'error state for what more data cannot cure, see C13.b)', q is None and bool(body_errt), loc(h, n.ast), path=pat.path_lines(q) if q else None,
+               discr='body-error-not-waited-for')
+    for t in body_errt:
+        for e in t.succ:
+            if pat.fact_matches(pat.compare_fact(t.ast, e.kind), src(t.ast.left), ('is not', '!='), 'None'):
+                bad400 = [n for n, nm in rejects if nm == 'httperror']
+                p = Q.escapes(g, [e.dst], lambda n: n in bad400, exc=())
+                chk.ob('d', h.ref, 'a parser error in the body phase is answered with an error response on every path', p is None, loc(h, t.ast),
+                       path=pat.path_lines(p) if p else None, discr='body-errno-rejected')
+    for t in [t_ for t_ in errt if t_ not in body_errt]:
         for e in t.succ:
             if pat.fact_matches(pat.compare_fact(t.ast, e.kind), src(t.ast.left), ('is not', '!='), 'None'):
                 bad400 = [n for n, nm in rejects if nm == 'httperror']
@@ -176,6 +196,78 @@ def _run(repo, chk):
     chk.ob('c', ex.ref, 'the 500 for a failed read handler is built from the socket and the server alone, not from the parse state the failed handler left behind',
            not touching, loc(ex, (touching[0] if touching else mk500[0]).ast) if (touching or mk500) else loc(ex, ex.node),
            detail='; '.join(f'L{n.ast.lineno}: {src(n.ast)[:80]}' for n in touching[:3]), discr='net-independent-of-parse-state')
+
+
+def rule_rejected(repo, chk):
+    """A rejected message ends the connection, but the close takes a few loop iterations: what still arrives meanwhile belongs to the rejected message."""
+    chk.rule('C14.i', 'a connection on which a message was rejected is recorded before the error response is fired, reads on a recorded connection are ignored, and the '
+                      'record is dropped when the connection ends')
+    h = http_func(repo, 'HTTP._on_read')
+    g = h.cfg()
+    sock = h.params[1]
+    marks = [n for n in g.nodes if n.kind == 'stmt' and any(r.startswith('self._') and [src(a) for a in c.args] == [sock] for r, c in pat.method_calls(n.ast, 'add'))]
+    sets_ = {r for n in marks for r, _c in pat.method_calls(n.ast, 'add')}
+    rej = [n for n in g.nodes if n.kind == 'stmt' and pat.fires(n.ast, 'httperror')]
+    need(rej, 'C14.i: _on_read rejects nothing')
+    for n in rej:
+        q = Q.reachable_without(g, n, avoid_node=lambda m: m in marks)
+        chk.ob('i', h.ref, 'the connection is recorded as rejected before the error response is fired', q is None and bool(marks), loc(h, n.ast),
+               path=pat.path_lines(q) if q else None, discr=f'recorded:{_case(n)}')
+    parse = [n for n in g.nodes if n.kind == 'stmt' and any(True for _r, _c in pat.method_calls(n.ast, 'execute'))]
+    for n in parse:
+        q = pat.guarded_by(g, n, pat.test_edge(lambda tt, pol: any(pat.fact_matches(pat.compare_fact(tt, pol), sock, ('not in',), st) for st in sets_)))
+        chk.ob('i', h.ref, 'nothing is parsed on a connection that has been rejected (the rest of the rejected message would start a new one)', q is None and bool(sets_),
+               loc(h, n.ast), path=pat.path_lines(q) if q else None, discr='rejected-not-parsed')
+    d = http_func(repo, 'HTTP._on_disconnect')
+    gd = d.cfg()
+    s2 = d.params[1]
+    for st in sorted(sets_):
+        drops = [n for n in gd.nodes if n.kind == 'stmt' and any(r == st and [src(a) for a in c.args][:1] == [s2] for r, c in pat.method_calls(n.ast, 'discard') + pat.method_calls(n.ast, 'remove'))]
+        p = Q.escapes(gd, [gd.entry], lambda n: n in drops)
+        chk.ob('i', d.ref, f'the record `{st}` is dropped when the connection ends (a descriptor number is reused by the next connection)', p is None and bool(drops),
+               loc(d, d.node), discr=f'record-dropped:{st}')
+    ex = http_func(repo, 'HTTP._on_exception')
+    ge = ex.cfg()
+    mk500 = [n for n in ge.nodes if n.kind == 'stmt' and isinstance(n.ast, ast.Assign) and 'wrappers.Response(' in src(n.ast.value) and '500' in src(n.ast.value)]
+    fire = [n for n in ge.nodes if n.kind == 'stmt' and pat.fires(n.ast, 'httperror')]
+    marks_e = [n for n in ge.nodes if n.kind == 'stmt' and any(r in sets_ for r, _c in pat.method_calls(n.ast, 'add'))]
+    for m in mk500:
+        p = Q.escapes(ge, [m], lambda n: n in marks_e, exits=('exit',)) if m not in marks_e else None
+        before = all(Q.reachable_without(ge, f_, start=m, avoid_node=lambda n: n in marks_e) is None for f_ in fire)
+        chk.ob('i', ex.ref, 'a read handler that failed in the middle of a message leaves the connection recorded as rejected', bool(marks_e) and (p is None or before),
+               loc(ex, m.ast), discr='recorded:500')
+    # the header fields the framing depends on are numbers of ASCII digits
+    from .common import WEB_PARSER
+    ph = repo.func(WEB_PARSER, 'HttpParser._parse_headers')
+    chk.touch(ph)
+    gp = ph.cfg()
+    for n in gp.nodes:
+        if n.ast is None or n.kind not in ('stmt', 'test'):
+            continue
+        for c in pat.node_calls(n):
+            if call_name(c) == 'int' and len(c.args) == 1 and isinstance(c.args[0], ast.Name) and any('content-length' in src(v).lower() for v in pat.flows_from(ph, c.args[0].id)):
+                x = c.args[0].id
+                q1 = pat.guarded_by(gp, n, pat.test_edge(lambda tt, pol: pol == 'T' and src(tt) == f'{x}.isdigit()'))
+                q2 = pat.guarded_by(gp, n, pat.test_edge(lambda tt, pol: pol == 'T' and src(tt) == f'{x}.isascii()'))
+                chk.ob('i', ph.ref, 'Content-Length is converted only when it consists of ASCII digits (a sign makes the length negative, which the body reader takes for '
+                                    '"complete"); anything else invalidates the header block', q1 is None and q2 is None, loc(ph, c), discr='content-length-digits')
+    # TLS on a plain-text port is recognised by its record header: the constants compared with the received bytes are bytes
+    u = repo.func('circuits/net/utils.py', 'is_ssl_handshake')
+    chk.touch(u)
+    bp = u.params[0]
+    bad = []
+    n_cmp = 0
+    for n in walk_no_defs(u.node):
+        if isinstance(n, ast.Compare) and len(n.ops) == 1 and isinstance(n.ops[0], (ast.In, ast.Eq)):
+            left_bytes = any(isinstance(w, ast.Subscript) and src(w.value) == bp for v in ([n.left] + [e for e in pat.deref(u, n.left)]) for w in ast.walk(v))
+            if left_bytes:
+                for c_ in ast.walk(n.comparators[0]):
+                    if isinstance(c_, ast.Constant) and isinstance(c_.value, (str, bytes)):
+                        n_cmp += 1
+                        if isinstance(c_.value, str):
+                            bad.append(c_)
+    chk.ob('i', u.ref, 'the record headers the received bytes are compared with are bytes (a str never equals bytes: the test would be dead)', n_cmp >= 1 and not bad,
+           loc(u, bad[0]) if bad else loc(u, u.node), detail=f'{len(bad)} str constant(s) of {n_cmp}', discr='tls-header-bytes')
 
 
 def _case(n):
